@@ -11,8 +11,9 @@
 // list of amounts), "box2" = everything about the pairs (a, b) for a list of boxes b (intersects,
 // contains(a, b), intersection, extend_bounding_box, distance, ==), "null" = the null box.
 // Unsigned coordinate type: amounts that would wrap (shrink beyond max, stretch below 0) and
-// distance (negative results) are not driven; values >= 2^31-1 are logged as 2147483647.
+// distance (negative results) are not driven; logged values are clamped to [-24, 24] (see sat).
 #include <common/vjson.hpp>
+#include <sys/time.h>
 
 #include <fcppt/math/box/center.hpp>
 #include <fcppt/math/box/comparison.hpp>
@@ -51,13 +52,58 @@ using ll = long long;
 template <std::size_t N>
 using tup = std::array<ll, N>;
 
+// ---- per-call watchdog (round 3): every driven call re-arms a CPU-time timer (ITIMER_VIRTUAL: user
+// time of this process only, so a loaded machine cannot fire it); a call that spins for WD_SECS of CPU
+// ends the process with a {"e":"crash","what":"hang"} line and rc 68 while the partial line names the call.
+constexpr int WD_SECS = 30;
+// the function of fcppt::math::box that is being driven inside the current record (a record batches many
+// functions): named in the crash line so that the verdict can name the operation
+char const *volatile stage = "";
+void crash_stage(char const *what, int code)
+{
+  char buf[240];
+  int const n = std::snprintf(buf, sizeof buf, "\n{\"e\":\"crash\",\"what\":\"%s\",\"code\":%d,\"stage\":\"%s\"}\n", what, code, stage);
+  if (vj::out_file() != nullptr) std::fflush(vj::out_file());
+  if (n > 0)
+  {
+    ssize_t const r = ::write(vj::out_fd(), buf, static_cast<size_t>(n));
+    (void)r;
+  }
+}
+void wd_fire(int) { crash_stage("hang", SIGVTALRM); _exit(68); }
+void on_sig_stage(int sig) { crash_stage(sig == SIGALRM ? "hang" : "signal", sig); _exit(sig == SIGALRM ? 68 : 67); }
+void on_term_stage() { crash_stage("terminate", 0); _exit(67); }
+void open_out(char const *path)
+{
+  vj::open(path);
+  std::set_terminate(on_term_stage);
+  for (int sig : {SIGSEGV, SIGBUS, SIGFPE, SIGILL, SIGABRT, SIGALRM}) std::signal(sig, on_sig_stage);
+}
+void wd_arm()
+{
+  static bool installed = false;
+  if (!installed) { std::signal(SIGVTALRM, wd_fire); installed = true; }
+  struct itimerval t{};
+  t.it_value.tv_sec = WD_SECS;
+  setitimer(ITIMER_VIRTUAL, &t, nullptr);
+}
+void wd_begin(std::string const &prefix) { wd_arm(); vj::begin_call(prefix); }
+
+// Representation convention (not an expectation): every input coordinate is in [-4, 7] and every amount in
+// [0, 2], so nothing the specification can demand lies outside [-6, 11]; logged values are clamped to
+// [-SATW, SATW] so that a garbage result (INT_MAX, a wrapped unsigned) reaches the judge as a small wrong
+// number (rejected in bounded time) instead of a box with 2^31 lattice points per coordinate.
+constexpr ll SATW = 24;
 template <typename T>
 ll sat(T v)
 {
   if constexpr (std::is_unsigned_v<T>)
-    return static_cast<unsigned long long>(v) >= 2147483647ULL ? 2147483647LL : static_cast<ll>(v);
+    return static_cast<unsigned long long>(v) >= static_cast<unsigned long long>(SATW) ? SATW : static_cast<ll>(v);
+  else if constexpr (std::is_floating_point_v<T>)
+    // integer-valued in every driven call; a fractional or NaN result is logged truncated / as SATW
+    return !(v == v) ? SATW : (v > static_cast<T>(SATW) ? SATW : (v < static_cast<T>(-SATW) ? -SATW : static_cast<ll>(v)));
   else
-    return static_cast<ll>(v);
+    return static_cast<ll>(v) > SATW ? SATW : (static_cast<ll>(v) < -SATW ? -SATW : static_cast<ll>(v));
 }
 
 template <typename T>
@@ -66,6 +112,11 @@ template <>
 char const *tname<int>() { return "i32"; }
 template <>
 char const *tname<unsigned>() { return "u32"; }
+// round 3: a 64-bit and a floating-point coordinate type (integer-valued coordinates)
+template <>
+char const *tname<long>() { return "i64"; }
+template <>
+char const *tname<double>() { return "f64"; }
 
 template <typename T, std::size_t N>
 using box_t = fcppt::math::box::object<T, N>;
@@ -163,8 +214,9 @@ void op_box1(boxin<N> const &a, std::vector<tup<N>> const &pts, std::vector<tup<
   jlist jp, ja;
   for (auto const &p : pts) jp.add(js<N>(p));
   for (auto const &v : amounts) ja.add(js<N>(v));
-  vj::begin_call(vj::J().kv("f", "box1").kv("T", tname<T>()).kv("N", static_cast<ll>(N)).raw("ap", js<N>(a.first)).raw("am", js<N>(a.second))
+  wd_begin(vj::J().kv("f", "box1").kv("T", tname<T>()).kv("N", static_cast<ll>(N)).raw("ap", js<N>(a.first)).raw("am", js<N>(a.second))
                      .raw("pts", jp.str()).raw("amounts", ja.str()).s);
+  stage = "pos_max_size";
   B const b = mkbox<T, N>(a.first, a.second);
   std::string out = ",\"pos\":" + jv<N>(b.pos()) + ",\"max\":" + jv<N>(b.max()) + ",\"size\":" + jv<N>(b.size());
   {
@@ -182,6 +234,7 @@ void op_box1(boxin<N> const &a, std::vector<tup<N>> const &pts, std::vector<tup<
     B const &vc = v;
     out += ",\"vp\":" + jv<N>(vc.pos()) + ",\"vm\":" + jv<N>(vc.max());
   }
+  stage = "init_max_init_dim";
   // the other ways to build the same box
   bool proper = true;
   for (std::size_t i = 0; i < N; ++i) proper = proper && a.first[i] <= a.second[i];
@@ -200,14 +253,19 @@ void op_box1(boxin<N> const &a, std::vector<tup<N>> const &pts, std::vector<tup<
   }
   else
     out += ",\"idp\":[],\"idm\":[],\"pdp\":[],\"pdm\":[]";
+  stage = "corner_points";
   jlist corners;
   for (auto const &c : fcppt::math::box::corner_points(b)) corners.add(jv<N>(c));
-  out += ",\"corners\":" + corners.str() + ",\"center\":" + jv<N>(fcppt::math::box::center(b));
+  out += ",\"corners\":" + corners.str();
+  stage = "center";
+  out += ",\"center\":" + jv<N>(fcppt::math::box::center(b));
   jlist cp, epp, epm;
   for (auto const &p : pts)
   {
     auto const v = mkvec<T, N>(p);
+    stage = "contains_point";
     cp.add(fcppt::math::box::contains_point(b, v) ? "1" : "0");
+    stage = "extend_bounding_box_point";
     B const e = fcppt::math::box::extend_bounding_box(b, v);
     epp.add(jv<N>(e.pos()));
     epm.add(jv<N>(e.max()));
@@ -226,6 +284,7 @@ void op_box1(boxin<N> const &a, std::vector<tup<N>> const &pts, std::vector<tup<
     auto const vv = mkvec<T, N>(v);
     if (sh_ok)
     {
+      stage = "shrink";
       B const s = fcppt::math::box::shrink(b, vv);
       shv.add(js<N>(v));
       shp.add(jv<N>(s.pos()));
@@ -233,6 +292,7 @@ void op_box1(boxin<N> const &a, std::vector<tup<N>> const &pts, std::vector<tup<
     }
     if (st_ok)
     {
+      stage = "stretch_absolute";
       B const s = fcppt::math::box::stretch_absolute(b, vv);
       stv.add(js<N>(v));
       stp.add(jv<N>(s.pos()));
@@ -242,14 +302,18 @@ void op_box1(boxin<N> const &a, std::vector<tup<N>> const &pts, std::vector<tup<
   out += ",\"shv\":" + shv.str() + ",\"shp\":" + shp.str() + ",\"shm\":" + shm.str() + ",\"stv\":" + stv.str() + ",\"stp\":" + stp.str() + ",\"stm\":" + stm.str();
   // extension: structure_cast to a box over long long (every value is representable) and operator<<
   {
+    stage = "structure_cast_output";
     using L = box_t<long long, N>;
-    L const sc = fcppt::math::box::structure_cast<L, fcppt::cast::size_fun>(b);
     std::string scs = "[", scm = "[";
+    if constexpr (std::is_integral_v<T>)
+    {
+    L const sc = fcppt::math::box::structure_cast<L, fcppt::cast::size_fun>(b);
     for (std::size_t i = 0; i < N; ++i)
     {
       if (i) { scs += ','; scm += ','; }
-      scs += std::to_string(std::is_unsigned_v<T> ? sat(static_cast<unsigned long long>(sc.pos().get_unsafe(i))) : sc.pos().get_unsafe(i));
-      scm += std::to_string(std::is_unsigned_v<T> ? sat(static_cast<unsigned long long>(sc.max().get_unsafe(i))) : sc.max().get_unsafe(i));
+      scs += std::to_string(std::is_unsigned_v<T> ? sat(static_cast<unsigned long long>(sc.pos().get_unsafe(i))) : sat(sc.pos().get_unsafe(i)));
+      scm += std::to_string(std::is_unsigned_v<T> ? sat(static_cast<unsigned long long>(sc.max().get_unsafe(i))) : sat(sc.max().get_unsafe(i)));
+    }
     }
     std::ostringstream os;
     os << b;
@@ -262,7 +326,7 @@ void op_box1(boxin<N> const &a, std::vector<tup<N>> const &pts, std::vector<tup<
 // every pair of intervals with ends in lo..hi, both argument orders
 void op_interval_distance(ll a1, ll a2, ll lo, ll hi)
 {
-  vj::begin_call(vj::J().kv("f", "interval_distance").kv("T", "i32").kv("N", 1).kv("a1", a1).kv("a2", a2).kv("lo", lo).kv("hi", hi).s);
+  wd_begin(vj::J().kv("f", "interval_distance").kv("T", "i32").kv("N", 1).kv("a1", a1).kv("a2", a2).kv("lo", lo).kv("hi", hi).s);
   jlist bs, d12, d21;
   for (ll b1 = lo; b1 <= hi; ++b1)
     for (ll b2 = lo; b2 <= hi; ++b2)
@@ -270,8 +334,8 @@ void op_interval_distance(ll a1, ll a2, ll lo, ll hi)
       bs.add("[" + std::to_string(b1) + "," + std::to_string(b2) + "]");
       auto const ia = fcppt::tuple::make(static_cast<int>(a1), static_cast<int>(a2));
       auto const ib = fcppt::tuple::make(static_cast<int>(b1), static_cast<int>(b2));
-      d12.add(std::to_string(fcppt::math::interval_distance(ia, ib)));
-      d21.add(std::to_string(fcppt::math::interval_distance(ib, ia)));
+      d12.add(std::to_string(sat(fcppt::math::interval_distance(ia, ib))));
+      d21.add(std::to_string(sat(fcppt::math::interval_distance(ib, ia))));
     }
   vj::end_call(",\"bs\":" + bs.str() + ",\"d12\":" + d12.str() + ",\"d21\":" + d21.str() + "}");
 }
@@ -303,20 +367,25 @@ void op_box2(boxin<N> const &a, std::vector<boxin<N>> const &bs, bool cube, ll l
     for (auto const &b : bs) jb.add("[" + js<N>(b.first) + "," + js<N>(b.second) + "]");
     head.kv("nb", static_cast<ll>(bs.size())).raw("probe_i", "[]").raw("probe_b", "[]").raw("bs", jb.str());
   }
-  vj::begin_call(head.s);
+  wd_begin(head.s);
   B const ba = mkbox<T, N>(a.first, a.second);
   jlist isx, con, inp, inm, exp, exm, dist, eq;
   for (auto const &b : bs)
   {
     B const bb = mkbox<T, N>(b.first, b.second);
+    stage = "intersects";
     isx.add(fcppt::math::box::intersects(ba, bb) ? "1" : "0");
+    stage = "contains";
     con.add(fcppt::math::box::contains(ba, bb) ? "1" : "0");
+    stage = "intersection";
     B const in = fcppt::math::box::intersection(ba, bb);
     inp.add(jv<N>(in.pos()));
     inm.add(jv<N>(in.max()));
+    stage = "extend_bounding_box";
     B const ex = fcppt::math::box::extend_bounding_box(ba, bb);
     exp.add(jv<N>(ex.pos()));
     exm.add(jv<N>(ex.max()));
+    stage = "distance_comparison";
     if constexpr (std::is_signed_v<T>) dist.add(jv<N>(fcppt::math::box::distance(ba, bb)));
     eq.add(ba == bb ? "1" : "0");
   }
@@ -327,7 +396,7 @@ void op_box2(boxin<N> const &a, std::vector<boxin<N>> const &bs, bool cube, ll l
 template <typename T, std::size_t N>
 void op_null()
 {
-  vj::begin_call(vj::J().kv("f", "null").kv("T", tname<T>()).kv("N", static_cast<ll>(N)).s);
+  wd_begin(vj::J().kv("f", "null").kv("T", tname<T>()).kv("N", static_cast<ll>(N)).s);
   auto const b = fcppt::math::box::null<box_t<T, N>>();
   vj::end_call(",\"pos\":" + jv<N>(b.pos()) + ",\"max\":" + jv<N>(b.max()) + ",\"size\":" + jv<N>(b.size()) + "}");
 }
@@ -448,28 +517,54 @@ int main(int argc, char **argv)
   alarm(1500);
   if (mode == "record")
   {
-    vj::open(argv[2]);
+    open_out(argv[2]);
     bool const thorough = std::string(argv[3]) == "thorough";
-    vj::Rng rng(argc > 4 ? std::strtoull(argv[4], nullptr, 10) : 1);
-    exhaustive<int, 1>(-3, 3);
-    exhaustive<unsigned, 1>(0, 6);
-    exhaustive<int, 2>(thorough ? -3 : -2, thorough ? 3 : 2);
-    exhaustive<unsigned, 2>(0, 4);
+    // round 3: `record OUT tier seed SECTION` drives one section (1..13) only; the check runs every section in
+    // its own process, so that a call that kills the process does not hide the other sections
+    int const sec = argc > 5 ? std::atoi(argv[5]) : 0;
+    auto const on = [sec](int const k) { return sec == 0 || sec == k; };
+    std::uint64_t const seed = argc > 4 ? std::strtoull(argv[4], nullptr, 10) : 1;
+    if (on(1)) exhaustive<int, 1>(-3, 3);
+    if (on(2)) exhaustive<unsigned, 1>(0, 6);
+    if (on(3)) exhaustive<int, 2>(thorough ? -3 : -2, thorough ? 3 : 2);
+    if (on(4)) exhaustive<unsigned, 2>(0, 4);
     // extension: 3-D exhaustive (thorough: corners in [-1,1], 729 boxes, 531 441 pairs; quick: [0,1])
-    exhaustive<int, 3>(thorough ? -1 : 0, 1);
-    exhaustive<unsigned, 3>(0, 1);
-    random3<int>(rng, thorough ? 3000 : 300, -3, 3);
-    random3<unsigned>(rng, thorough ? 1000 : 100, 0, 6);
+    if (on(5)) exhaustive<int, 3>(thorough ? -1 : 0, 1);
+    if (on(6)) exhaustive<unsigned, 3>(0, 1);
+    if (on(7))
+    {
+      vj::Rng r7(seed * 1000003ULL + 7U);
+      random3<int>(r7, thorough ? 3000 : 300, -3, 3);
+    }
+    if (on(8))
+    {
+      vj::Rng r8(seed * 1000003ULL + 8U);
+      random3<unsigned>(r8, thorough ? 1000 : 100, 0, 6);
+    }
+    // round 3: 64-bit and floating-point coordinates
+    if (on(10)) { exhaustive<long, 1>(-2, 2); exhaustive<long, 2>(-1, 1); }
+    if (on(11)) { exhaustive<double, 1>(-2, 2); exhaustive<double, 2>(-1, 1); }
+    if (on(12))
+    {
+      vj::Rng r12(seed * 1000003ULL + 12U);
+      random3<long>(r12, thorough ? 600 : 100, -3, 3);
+    }
+    if (on(13))
+    {
+      vj::Rng r13(seed * 1000003ULL + 13U);
+      random3<double>(r13, thorough ? 600 : 100, -3, 3);
+    }
     // observed only (outside the statement of C13): driven last
-    for (ll a1 = -3; a1 <= 3; ++a1)
-      for (ll a2 = -3; a2 <= 3; ++a2) op_interval_distance(a1, a2, -3, 3);
+    if (on(9))
+      for (ll a1 = -3; a1 <= 3; ++a1)
+        for (ll a2 = -3; a2 <= 3; ++a2) op_interval_distance(a1, a2, -3, 3);
     vj::close();
     return 0;
   }
   if (mode == "replay")
   {
     auto const lines = vj::read_lines(argv[2]);
-    vj::open(argv[3]);
+    open_out(argv[3]);
     for (auto const &l : lines)
     {
       auto const v = vj::parse(l);
@@ -479,6 +574,8 @@ int main(int argc, char **argv)
         continue;
       }
       if (v->str("T") == "i32") replay_t<int>(*v);
+      else if (v->str("T") == "i64") replay_t<long>(*v);
+      else if (v->str("T") == "f64") replay_t<double>(*v);
       else replay_t<unsigned>(*v);
     }
     vj::close();
